@@ -19,7 +19,8 @@ from .common import *  # noqa: F403
 LEVEL = "proof"
 EXPLANATION = "pseudopressure_threephase is executed on arrays of symbolic length; the quadrature call is identified through the library model of cumulative_trapezoid (argument order included) and its increment is compared with the trapezoid of the documented mobility (CAS); positivity / linearity of the increment are SMT / CAS lemmas; from_table is executed symbolically"
 TRUSTED = ["scipy cumulative_trapezoid(y, x, initial=0): out[0]=0, out[k]=out[k-1]+(x[k]-x[k-1])(y[k]+y[k-1])/2", "scipy interp1d model; pandas table model"]
-ASSUMPTIONS = ["the consequence for the scaled pseudopressure (1 at p_i, increasing, [0,1) below) is C09's alpha-branch contract applied to this column"]
+ASSUMPTIONS = ["p_i is not inside the first table interval: the multiphase pseudopressure is 0 at the first row, so the wrapper's 1/m is infinite there (edge of the table, outside the property's quantifier over tables/rel-perm sets/densities/grids)",
+               "the consequence for the scaled pseudopressure (1 at p_i, increasing, [0,1) below) is C09's alpha-branch contract applied to this column"]
 
 M3 = c16.M3
 n = tm.var("n", tm.I)
@@ -196,6 +197,32 @@ def build(ctx):
 
     obs.append(Obligation("from_table.m3", "from_table: the wrapper receives the table's pressure column and the cumulative trapezoid of the documented mobility of the table interpolants; m-scaled is a constant multiple of it", ft,
                           [c16.FT, M3], "CAS", ft_replay))
+
+    def ft_mi():
+        from ..libmodels import Interp1dV
+        o, tb = c16.run_from_table(ctx)
+        fp = o.value
+        msf = fp.fields["m_scaled_func"]
+        J = tm.var("J", tm.I)
+        p_i = tm.var("p_i")
+        calls = o.heap["ghost"].get("interp_calls", [])
+        I = [I_ for (I_, qq) in calls if I_ is not msf and qq is p_i]
+        if len(I) != 1 or not isinstance(msf, Interp1dV):
+            return be.Verdict(be.REFUTED, "SMT", witness={}, detail="cannot identify the scaling interpolant of the wrapper")
+        I = I[0]
+        reg = o.heap["ghost"].get("cumtrapz", {})
+        name = list(reg)[0]
+        ppJ = tm.app(name, [J])
+        nn = tb["pressure"].shape[0]
+        hyp = list(o.pc) + [I.node_fact(J), msf.node_fact(J), tm.eq(p_i, tb["pressure"].get(J)), tm.le(tm.const(1), J), tm.lt(J, nn),
+                            tm.gt(ppJ, tm.rconst(0))]  # positive beyond the first row: m3.increasing + first entry 0
+        v = be.prove_smt(tm.eq(fp.fields["m_i"], tm.rconst(1)), hyp, timeout_ms=20000)
+        if v.status != be.PROVED:
+            v.detail = "from_table(...).m_i == 1 when p_i is a table node (beyond the reference row): " + v.detail
+        return with_models(v, o)
+
+    obs.append(Obligation("from_table.m_i", "from_table: the wrapper's initial scaled pseudopressure m_i == 1 when p_i is a table node beyond the reference row (between nodes: C09 init.alpha_branch bound)", ft_mi,
+                          [c16.FT, FP + "FlowProperties.__init__"], "SMT", ft_replay))
 
     def canary():
         o = run_m3(ctx)
